@@ -288,6 +288,7 @@ fn run_case(case: &Case, ctx: &Ctx) -> Result<Stats, Outcome> {
         advance_budget: a.advance_budget,
         held_advance: a.held_advance,
         abort_check: None,
+        foreign_publisher_base: None,
     };
     b.wm().hold_types = a.w().hold_types.clone();
     let mut target = target;
